@@ -10,7 +10,7 @@ import ast
 import itertools
 
 from ..engine.program import AnalysisError, dotted, src, walk_no_nested, call_name
-from ..engine import flow
+from ..engine import flow, symexec
 from ..engine.dataflow import local_defs, reaching_defs
 
 LRC = "src/long_read_counter.py"
@@ -122,54 +122,58 @@ def w1(prog, ctx):
                 ctx.fail("W1", p.exit_node or f, f._qualname, "path without a weight", "a path returns no weight", path=p.describe())
                 continue
             w = norm_weight(p.exit_node.value, kname)
-            iv = (0, INF)
-            pos_facts = []
-            for test, pol in p.conds():
-                for t, tp in flow.conjuncts(test, pol):
-                    iv = refine(iv, t, tp, kname)
-                    if tp:
-                        pos_facts.append(src(t))
             fq = f._qualname
-            if iv[0] > iv[1]:
-                continue   # infeasible path
             if w is None:
                 ctx.fail("W1", p.exit_node, fq, src(p.exit_node), "weight %s is none of 0, 1, 1/%s" % (src(p.exit_node.value), kname),
                          path=p.describe())
                 continue
-            if w == "1" and iv[1] > 1:
-                ctx.fail("W1", p.exit_node, fq, src(p.exit_node),
-                         "weight 1 is returned on a path where %s may be %s: a read shared by k>1 features would add k to the table"
-                         % (kname, "> 1" if iv[1] == INF else iv[1]), path=p.describe())
-                continue
-            if w == "1/k":
-                need = ["use_ambiguous"] if fname == "process_ambiguous" else ["use_ambiguous", "use_inconsistent"]
-                missing = [n for n in need if not any(x.endswith("." + n) for x in pos_facts)]
-                if missing and iv[1] > 1:
-                    ctx.fail("W1", p.exit_node, fq, src(p.exit_node),
-                             "a shared read gets weight 1/k without the strategy flag(s) %s being set on this path" % missing,
-                             path=p.describe())
-                    continue
-            if w == "1" and fname == "process_inconsistent":
-                full = any(x.endswith(".use_inconsistent") for x in pos_facts)
-                minor = any(x.endswith(".use_inconsistent_minor") for x in pos_facts) and \
-                    any("inconsistent_non_intronic" in x and "==" in x for x in pos_facts)
-                if not (full or minor):
-                    ctx.fail("W1", p.exit_node, fq, src(p.exit_node),
-                             "an inconsistent read gets weight 1 although neither use_inconsistent nor "
-                             "(use_inconsistent_minor and type == inconsistent_non_intronic) holds on this path", path=p.describe())
-                    continue
-                if not any("inconsistent_ambiguous" in src(t) for t, pol in p.conds()):
-                    ctx.fail("W1", p.exit_node, fq, src(p.exit_node), "weight 1 path does not exclude inconsistent_ambiguous", path=p.describe())
-                    continue
-            ctx.ok("W1", "%s:%d" % (LRC, p.exit_node.lineno), "%s: weight %s with %s in [%s, %s], flags %s"
-                   % (fname, w, kname, iv[0], iv[1], [x.split(".")[-1] for x in pos_facts if "use_" in x]))
-    ctx.floor("W1", "weight-function paths", npaths, 9)
+            problem = None
+            seen_iv = None
+            # every scenario (DNF alternative of the path condition, local aliases replaced by their definitions) must justify the weight
+            for sc in flow.path_scenarios(p, symexec.cond_substituter(p)):
+                iv = (0, INF)
+                pos_facts, all_atoms = [], []
+                for t, tp in sc:
+                    iv = refine(iv, t, tp, kname)
+                    all_atoms.append(src(t))
+                    if tp:
+                        pos_facts.append(src(t))
+                if iv[0] > iv[1]:
+                    continue   # infeasible scenario
+                seen_iv = iv
+                if w == "1" and iv[1] > 1:
+                    problem = "weight 1 is returned on a path where %s may be %s: a read shared by k>1 features would add k to the table" \
+                              % (kname, "> 1" if iv[1] == INF else iv[1])
+                    break
+                if w == "1/k":
+                    need = ["use_ambiguous"] if fname == "process_ambiguous" else ["use_ambiguous", "use_inconsistent"]
+                    missing = [n_ for n_ in need if not any(x.endswith("." + n_) for x in pos_facts)]
+                    if missing and iv[1] > 1:
+                        problem = "a shared read gets weight 1/k without the strategy flag(s) %s being set on this path" % missing
+                        break
+                if w == "1" and fname == "process_inconsistent":
+                    full = any(x.endswith(".use_inconsistent") for x in pos_facts)
+                    minor = any(x.endswith(".use_inconsistent_minor") for x in pos_facts) and \
+                        any("inconsistent_non_intronic" in x and "==" in x for x in pos_facts)
+                    if not (full or minor):
+                        problem = "an inconsistent read gets weight 1 although neither use_inconsistent nor (use_inconsistent_minor and " \
+                                  "type == inconsistent_non_intronic) holds on this path"
+                        break
+                    if not any("inconsistent_ambiguous" in x for x in all_atoms):
+                        problem = "weight 1 path does not exclude inconsistent_ambiguous"
+                        break
+            if problem:
+                ctx.fail("W1", p.exit_node, fq, src(p.exit_node), problem, path=p.describe())
+            elif seen_iv is not None:
+                ctx.ok("W1", "%s:%d" % (LRC, p.exit_node.lineno), "%s: weight %s with %s in [%s, %s] on every scenario of the path"
+                       % (fname, w, kname, seen_iv[0], seen_iv[1]))
+    ctx.floor("W1", "weight-function paths", npaths, 6)
 
 
 def w2(prog, ctx):
     n = 0
     for fname in ("add_read_info", "add_read_info_raw"):
-        f = prog.func(LRC, "AssignedFeatureCounter." + fname)
+        f = prog.func_inlined(LRC, "AssignedFeatureCounter." + fname)
         incs = [c for c in walk_no_nested(f) if isinstance(c, ast.Call) and isinstance(c.func, ast.Attribute)
                 and c.func.attr == "inc" and "feature_counter" in src(c.func)]
         for c in incs:
@@ -302,7 +306,7 @@ def w3(prog, ctx):
     # dump: zeroing only for features not confirmed
     d = prog.func(LRC, "AssignedFeatureCounter.dump")
     zero = [s for s in walk_no_nested(d) if isinstance(s, ast.Assign) and isinstance(s.targets[0], ast.Subscript)
-            and ".data[" in src(s.targets[0])]
+            and isinstance(s.value, ast.Constant) and s.value.value in (0, 0.0) and not isinstance(s.value.value, bool)]
     if len(zero) != 1:
         ctx.fail("W3", d, d._qualname, "zeroing", "expected exactly one statement zeroing counts in dump()")
     else:
